@@ -30,7 +30,7 @@ TRUSTED_BASE = [
 # C07 — canonical RLP
 VERUS.append(dict(
     name='rlp', template='contracts/verus/rlp.rs', props={'C07': Q, 'C06': Q, 'C17': Q}, rlimit=30,
-    pairs={'rlp_len': 'c07_len_complete', 'rlp_bytes': 'c07_bytes_len', 'uint': 'c07_uint_complete', 'list': 'c07_list_'},
+    pairs={'rlp_len': r'c07_len_complete$', 'rlp_bytes': r'c07_bytes_len\d+$', 'uint': r'c07_uint_complete$', 'list': r'c07_list_\w+$'},
 ))
 RLP = 'src/transaction/rlp.rs'
 K('c07_len_complete', RLP, 'rlp::len', {'C07': Q, 'C17': Q},
@@ -51,8 +51,20 @@ K('xc_u256_lz_bytes', RLP, 'ethnum::U256::{leading_zeros,to_be_bytes}', {'C07': 
   'cross-check of the interface contracts assumed by the Verus unit: U256::leading_zeros == 256 - bitlen, to_be_bytes == be_fix(n, 32), for all U256')
 
 # ---------------------------------------------------------------------------
+NOT_APPLICABLE = {
+    'C02': 'the property is the definition of PBKDF2-HMAC-SHA512 and NFKD in the pbkdf2/hmac/sha2/unicode-normalization dependencies; no contract within reach of Verus (cannot link the crates) or Kani (2048x2 SHA-512 compressions on symbolic input; trait-method call sites cannot be stubbed) can express or decide it',
+    'C03': 'derive_slice interleaves its glue with HMAC-SHA512, SEC1 compression and secp256k1 scalar addition from hmac/k256 inside one loop body; those trait-method calls cannot be cut out by Kani stubs nor seen by Verus, and symbolic HMAC/EC arithmetic has no tractable encoding or independent oracle',
+    'C05': 'try_sign is a single call into k256 RFC 6979 signing; validity, recoverability, low-s and RFC 6979 equality are theorems about secp256k1/HMAC-DRBG in the dependency that neither installed verifier can express',
+}
+_PENDING = 'check not built yet in this session (see DESIGN.md for the planned contracts)'
+for _p in ('C01', 'C04', 'C06', 'C08', 'C09', 'C10', 'C11', 'C12', 'C13', 'C14', 'C15', 'C16', 'C17', 'C18', 'C19', 'C20'):
+    NOT_APPLICABLE.setdefault(_p, _PENDING)
+
 PROPS = {
     'C07': dict(level='proof',
+                technique='Verus proof of extracted rlp::{len,bytes,uint,list} against the Yellow-Paper spec + Kani/CBMC pairings on the real functions',
+                claim='rlp::{len,bytes,uint,list} produce exactly the Yellow-Paper encoding for inputs of every length and value (Verus, unbounded); the canonical-form clauses (minimal length prefix, no wrapped single byte < 0x80, no leading zero in integers, 0 = empty string) are part of that spec; len and uint are additionally proved on the real code for all 2^64 x 2 resp. 2^256 inputs by Kani. rlp::iter and AccessList::rlp_encode are bounded stand-ins.',
+                note='Assumed: ethnum U256 / usize leading_zeros and to_be_bytes interface contracts (each cross-checked on the real code by a complete Kani harness in the same run), vstd Vec/slice model, total list payload fits usize, extractor rewrite rules R1-R4/R6. Decoder side (strict decoder accepts and returns the originals) follows from equality with the injective Yellow-Paper encoding; that lemma is argued in DESIGN.md, not machine-checked yet.',
                 explanation='Verus proves rlp::{len,bytes,uint,list} (bodies extracted from /repo each run) equal to the Yellow-Paper encoding for inputs of every length; strict-decoder lemmas are spec-level; Kani pairs give counterexamples and cross-check the assumed usize/U256 interface contracts.',
                 trusted=['U256/usize interface contracts assumed in the Verus prelude (cross-checked by xc_* Kani harnesses on the real code)',
                          'sum of item lengths fits usize (true of live allocations)']),
